@@ -565,7 +565,11 @@ def dump_storage(fs, oids, tids):
     return d
 
 
-ITER_START_ERRORS = ('err:CorruptedError', 'err:CorruptedDataError', 'err:ValueError')
+# the exception that surfaces depends on what the bytes of the torn tail happen to decode to when
+# _skip_to_start takes them for a transaction header / redundant length (status byte → UnicodeDecodeError,
+# short read → struct.error, wild position → OverflowError / OSError from seek)
+ITER_START_ERRORS = ('err:CorruptedError', 'err:CorruptedDataError', 'err:ValueError', 'err:UnicodeDecodeError',
+                     'err:error', 'err:OverflowError', 'err:OSError')
 
 
 def classify_iterator_start(got, want, tids):
